@@ -72,7 +72,7 @@ def run(ctx):
         g("R15.types", "check_types_match:sequence-equality=>Err", ctm, CallResult(eq_calls[0].name(), False), err=ERR)
         c = eq_calls[0]
         p0, p1 = op_prov(ctm, c.args[0]), op_prov(ctm, c.args[1])
-        both = (("a:types" in p0 and "a:refs" in p1) or ("a:types" in p1 and "a:refs" in p0))
+        both = (("arg:2" in p0 and "arg:1" in p1) or ("arg:2" in p1 and "arg:1" in p0))
         ok = len(eq_calls) == 1 and both and reads_ty
         ctx.ob("R15.types", "check_types_match:operands", ok,
                "equal(types, refs.map(|r| &r.ty))" if ok else "operands: %s | %s reads_ty=%s" % (
@@ -87,7 +87,7 @@ def run(ctx):
         # after the loop rejects), or the lengths compared
         r2 = check_guard(ctm, Cmp("ne", "c:len", "c:len"), err=ERR, bypass="none")
         if not r2.ok:
-            r2 = check_guard(ctm, CallResult("::next", "Some", arg="a:types"), err=ERR, bypass="none")
+            r2 = check_guard(ctm, CallResult("::next", "Some", arg="arg:2"), err=ERR, bypass="none")
             if r2.ok:
                 # must be outside the element loop (i.e. after it): the guard block is not in a loop
                 from .guards import innermost_loop
@@ -149,7 +149,7 @@ def run(ctx):
     ok = False
     if len(cs) == 1:
         p0, p1 = op_prov(vrp, cs[0].args[0]), op_prov(vrp, cs[0].args[1])
-        ok = "a:return_refs" in p0 and "f:ret_types" in p1 and _result_used(vrp, cs[0])
+        ok = "arg:6" in p0 and "f:ret_types" in p1 and _result_used(vrp, cs[0])
     ctx.ob("R15.return", "validate_return_properties:check_types_match(return_refs, ret_types)", ok,
            "return values are checked against the declared return types", vrp.where())
     g("R15.frame", "validate_return_properties:InvalidFunctionApChange", vrp,
@@ -180,25 +180,25 @@ def run(ctx):
                    "every accepting path of the merge arm passes the %s test" % name, soa.where(r.line))
     for c in soa.calls_to("test_references_consistency") + soa.calls_to("validate_environment_equality"):
         ps = [op_prov(soa, a) for a in c.args[-2:]]
-        ok = any("a:annotations" in p for p in ps) and any("c:get" in p or "n:expected_annotations" in p for p in ps)
+        ok = any("arg:3" in p for p in ps) and any("c:get" in p for p in ps)
         ctx.ob("R15.merge", "set_or_assert:%s:operands" % c.name(), ok,
                "compares the new annotations with the stored ones", c.where())
     trc = F.find1(S2C + "annotations::ProgramAnnotations::test_references_consistency")
     IRE = "InconsistentReferenceError"
-    g("R15.merge", "test_references_consistency:len", trc, Cmp("ne", ["c:len", "a:actual"], ["c:len", "a:expected"]),
+    g("R15.merge", "test_references_consistency:len", trc, Cmp("ne", ["c:len", "arg:2"], ["c:len", "arg:3"]),
       rel="ne", err=(IRE, "VariableCountMismatch"))
-    g("R15.merge", "test_references_consistency:missing", trc, CallResult("::get", "None", arg="a:expected"),
+    g("R15.merge", "test_references_consistency:missing", trc, CallResult("::get", "None", arg="arg:3"),
       err=(IRE, "VariableMissing"))
     for fld, var in (("ty", "TypeMismatch"), ("expression", "ExpressionMismatch"), ("stack_idx", "StackIndexMismatch")):
         g("R15.merge", "test_references_consistency:" + fld, trc,
-          Cmp("ne", ["f:" + fld, "n:actual_ref"], ["f:" + fld, "n:expected_ref"]), rel="ne", err=(IRE, var))
+          Cmp("ne", ["f:" + fld, "c:next"], ["f:" + fld, "c:get"]), rel="ne", err=(IRE, var))
     g("R15.merge", "test_references_consistency:test_var_consistency?", trc,
       CallResult("test_var_consistency", "Break"))
     vee = F.find1(S2C + "environment::validate_environment_equality")
     for fld, var in (("ap_tracking", "InconsistentApTracking"), ("frame_state", "InconsistentFrameState"),
                      ("gas_wallet", "InconsistentGasWallet")):
         g("R15.merge", "validate_environment_equality:" + fld, vee,
-          Cmp("ne", ["f:" + fld, "a:a"], ["f:" + fld, "a:b"]), rel="ne", err=("EnvironmentError", var))
+          Cmp("ne", ["f:" + fld, "arg:1"], ["f:" + fld, "arg:2"]), rel="ne", err=("EnvironmentError", var))
 
     # ---- clause: every branch lands on an alignment point
     s1 = None
@@ -241,11 +241,11 @@ def run(ctx):
       rel="ne", err=(PRE, "LibfuncInvocationBranchResultCountMismatch"))
     g("R15.align", "validate_statement:jump-range", vs, Cmp("ge", ["c:next"], ["c:len", "f:statements"]),
       rel="ge", err=(PRE, "JumpOutOfRange"))
-    g("R15.align", "validate_statement:backwards", vs, Cmp("lt", ["c:next"], ["a:index"]),
+    g("R15.align", "validate_statement:backwards", vs, Cmp("lt", ["c:next"], ["arg:3"]),
       rel="lt", err=(PRE, "BranchBackwards"), bypass="none")
-    g("R15.align", "validate_statement:not-to-branch-align", vs, CallResult("::get", "Some", arg="a:branches"),
+    g("R15.align", "validate_statement:not-to-branch-align", vs, CallResult("::get", "Some", arg="arg:5"),
       err=(PRE, "BranchNotToBranchAlign"), bypass="none")
-    g("R15.align", "validate_statement:multiple-jumps", vs, CallResult("::entry", "0", arg="a:branches"),
+    g("R15.align", "validate_statement:multiple-jumps", vs, CallResult("::entry", "0", arg="arg:5"),
       err=(PRE, "MultipleJumpsToSameStatement"), bypass="none")
     g("R15.align", "validate_statement:fallthrough-target", vs, Cmp("ne", None, None),
       err=(PRE, "LibfuncInvocationBranchTargetMismatch"), bypass="none")
